@@ -86,3 +86,34 @@ Proof.
   { clear. induction pre as [|p t IH]; cbn; [fold (mcu_blocks post); lia|]. fold (mcu_blocks (t ++ c :: post)). fold (mcu_blocks t). lia. }
   rewrite E in Hb. nia.
 Qed.
+
+(* ------------------------------------------------------------ lossless difference rows (jddiffct.c / jdlhuff.c) *)
+(* decode_mcus stores MCUs_per_row * MCU_width differences into a row of diff_buf[ci] (dummy samples of the last
+   partial MCU included); the row length is read from the source (GenLimits.diff_buf_row) *)
+Lemma round_up_dim1 X s m : 1 <= X -> 1 <= s <= m ->
+  gen_round_up (div_round_up (X * s) m) s = div_round_up X m * s.
+Proof.
+  intros HX Hs. unfold gen_round_up. change ((div_round_up (X * s) m + s - 1) / s) with (div_round_up (div_round_up (X * s) m) s). f_equal.
+  assert (HD : 1 <= m) by lia.
+  destruct (dru_bounds X m HX HD) as [[T1 T2] T3]. set (T := div_round_up X m) in *.
+  assert (HXs : 1 <= X * s) by nia.
+  destruct (dru_bounds (X * s) m HXs HD) as [[W1 W2] W3]. set (w := div_round_up (X * s) m) in *.
+  assert (Hw1 : w <= T * s) by nia.
+  assert (Hw2 : (T - 1) * s < w) by nia.
+  destruct (dru_bounds w s ltac:(lia) ltac:(lia)) as [[R1 R2] R3]. nia.
+Qed.
+
+Lemma diff_row_covers_mcus_ : forall W h mh, 1 <= W -> 1 <= h <= mh ->
+  let wibl := div_round_up (W * h) mh in                       (* width_in_blocks, data unit 1 *)
+  (* interleaved scan: MCUs_per_row = ceil(W / max_h), MCU_width = h *)
+  div_round_up W mh * h <= diff_buf_row wibl h /\ div_round_up W mh * h <= undiff_buf_row wibl h /\
+  (* single-component scan: MCUs_per_row = width_in_blocks, MCU_width = 1 *)
+  wibl <= diff_buf_row wibl h /\ wibl <= undiff_buf_row wibl h.
+Proof.
+  intros W h mh HW Hh. cbv zeta. unfold diff_buf_row, undiff_buf_row.
+  rewrite round_up_dim1 by lia.
+  assert (HD : 1 <= mh) by lia.
+  destruct (dru_bounds W mh HW HD) as [[T1 T2] T3].
+  destruct (dru_bounds (W * h) mh ltac:(nia) HD) as [[W1 W2] W3].
+  repeat split; try lia; nia.
+Qed.
